@@ -132,14 +132,14 @@ def drive(ctx, cfg, observers=(), dom=None, algo=None, T=None, last_point=True, 
     rs = []
     for k in range(1, T + 1):
         t = times[k - 1] if times is not None else k
+        if pre and k == pre["P"] + 1:
+            shims.rng_fresh()  # from the first symbolic round on the draws are solver variables again
         p = ctx.call("pull", algo.pull, t)
         if p is None and stop_on_none:
             ctx.count("run_stopped_when_pull_returned_None")
             break
         for ob in observers:
             ob.after_pull(k, p)
-        if pre and k == pre["P"] + 1:
-            shims.rng_fresh()
         if pre and k <= pre["P"]:
             r = prefix_reward(cfg, p, k)
         else:
